@@ -582,6 +582,69 @@ fn first_case(sink: &mut Sink, run: usize, auth_first: bool, inj: &Value) {
     sink.lines(run, &lines, json!([{"auth_first": auth_first, "inj": inj}]));
 }
 
+/// Every legal reason code of every acknowledgement, one per run, deterministic (the walks draw them at random): the
+/// operation's outcome, what is (not) written next - no PUBREL after a failing PUBREC - and the session going on
+/// with further exchanges that use the freed slot and, with Receive Maximum 1, need it.
+pub fn reasons(a: &HashMap<String, String>) -> i32 {
+    let mut sink = Sink::new(a);
+    let seed = seed_of(a);
+    let mut cases: Vec<(&str, u8, u8)> = vec![];
+    for rc in session::PUB_REASONS {
+        cases.push(("PUBACK", rc, 0));
+        cases.push(("PUBREC", rc, 0));
+        if rc < 0x80 {
+            cases.push(("PUBREC", rc, 0x92));
+        }
+    }
+    for rc in session::SUBACK_REASONS {
+        cases.push(("SUBACK", rc, 0));
+    }
+    for rc in session::UNSUBACK_REASONS {
+        cases.push(("UNSUBACK", rc, 0));
+    }
+    for (t, rc, rc2) in cases {
+        for r in [1u16, 3] {
+            let run = match sink.mine() {
+                Some(x) => x,
+                None => continue,
+            };
+            let mut steps = vec![reset("reasons", Some(r), None)];
+            let spec = match t {
+                "PUBACK" => pub_spec(1, 1, 2),
+                "PUBREC" => pub_spec(1, 2, 2),
+                "SUBACK" => json!({"kind": "sub", "filters": [{"f": "f/1", "qos": 1}]}),
+                _ => json!({"kind": "unsub", "filters": [{"f": "f/1"}]}),
+            };
+            steps.push(json!({"a": "call", "op": 1, "h": 0, "spec": spec}));
+            steps.push(settle_wake());
+            if t == "SUBACK" || t == "UNSUBACK" {
+                steps.push(json!({"a": "pkt", "pk": {"t": t, "id": {"op": 1}, "rcs": [rc]}}));
+            } else {
+                steps.push(json!({"a": "pkt", "pk": {"t": t, "id": {"op": 1}, "rc": rc}}));
+            }
+            steps.push(settle_wake());
+            if t == "PUBREC" && rc < 0x80 {
+                steps.push(json!({"a": "pkt", "pk": {"t": "PUBCOMP", "id": {"op": 1}, "rc": rc2}}));
+                steps.push(settle_wake());
+            }
+            // the session goes on: a QoS 2 and a QoS 1 exchange, one after the other (each needs the slot with R = 1)
+            steps.push(json!({"a": "call", "op": 2, "h": 0, "spec": pub_spec(2, 2, 1)}));
+            steps.push(settle_wake());
+            steps.push(json!({"a": "pkt", "pk": {"t": "PUBREC", "id": {"op": 2}, "rc": 0}}));
+            steps.push(settle_wake());
+            steps.push(json!({"a": "pkt", "pk": {"t": "PUBCOMP", "id": {"op": 2}, "rc": 0}}));
+            steps.push(settle_wake());
+            steps.push(json!({"a": "call", "op": 3, "h": 0, "spec": pub_spec(3, 1, 1)}));
+            steps.push(settle_wake());
+            steps.push(json!({"a": "pkt", "pk": {"t": "PUBACK", "id": {"op": 3}, "rc": 0}}));
+            steps.push(settle());
+            sink.run_script(run, steps, seed);
+        }
+    }
+    sink.finish();
+    0
+}
+
 pub const CONNACK_REASONS: [u8; 22] = [
     0x00, 0x80, 0x81, 0x82, 0x83, 0x84, 0x85, 0x86, 0x87, 0x88, 0x89, 0x8a, 0x8c, 0x90, 0x95, 0x97, 0x99, 0x9a, 0x9b, 0x9c, 0x9d, 0x9f,
 ];
@@ -640,6 +703,18 @@ pub fn resume(a: &HashMap<String, String>) -> i32 {
                 // the full history as a list of steps
                 let mut hist: Vec<Value> = vec![];
                 let qos: Vec<u8> = (0..n).map(|i| if qmask >> i & 1 == 1 { 2 } else { 1 }).collect();
+                if perm == 1 {
+                    // a request that is awaited but never re-sent (ping / subscribe / unsubscribe), sent ahead of the publishes
+                    // and never answered: the publishes are stored and released by their own identifiers, wherever they
+                    // stand among the awaited acknowledgements
+                    let spec = match (n + qmask as usize) % 3 {
+                        0 => json!({"kind": "ping"}),
+                        1 => json!({"kind": "sub", "filters": [{"f": "f/8", "qos": 1}]}),
+                        _ => json!({"kind": "unsub", "filters": [{"f": "f/8"}]}),
+                    };
+                    hist.push(json!({"a": "call", "op": 8, "h": 0, "spec": spec}));
+                    hist.push(poll_op(8));
+                }
                 for i in 0..n {
                     let k = i + 1;
                     hist.push(json!({"a": "call", "op": k, "h": 0, "spec": pub_spec(k, qos[i], 3)}));
@@ -1390,6 +1465,54 @@ pub fn blockcmp(a: &HashMap<String, String>) -> i32 {
         }
         (s.trace.clone(), outcome(&s))
     };
+    // the same on the reading side: the acknowledgement arrives in two fragments, the context is polled 0..8 times in between
+    // without a wake-up (the outcome is that of the run without such polls: the fragment waits in the framer)
+    let mk_rd = |req: &Value, nspur: usize, at: usize| -> Vec<Value> {
+        let mut steps = vec![reset("blockcmp", Some(5), None)];
+        steps.push(json!({"a": "call", "op": 1, "h": 0, "spec": req}));
+        steps.push(settle_wake());
+        let t = match (req["kind"].as_str().unwrap_or(""), req["qos"].as_u64().unwrap_or(0)) {
+            ("ping", _) => "PINGRESP",
+            ("sub", _) => "SUBACK",
+            (_, 2) => "PUBREC",
+            _ => "PUBACK",
+        };
+        let mut pk = json!({"t": t, "id": {"op": 1}, "rc": 0});
+        if t == "SUBACK" {
+            pk["rcs"] = json!([1]);
+        }
+        steps.push(json!({"a": "frag", "pk": pk, "at": at, "spur": nspur}));
+        steps.push(settle_wake());
+        steps.push(json!({"a": "autoack"}));
+        steps.push(settle());
+        steps
+    };
+    for req in [&reqs[0], &reqs[2], &reqs[3], &reqs[5]] {
+        for at in [1usize, 2, 3] {
+            if req["kind"] == "ping" && at > 1 {
+                continue;
+            }
+            let (_, o0) = run_it(&mk_rd(req, 0, at));
+            for nspur in 0..=8usize {
+                let run = match sink.mine() {
+                    Some(x) => x,
+                    None => continue,
+                };
+                let mut steps = mk_rd(req, nspur, at);
+                steps[0]["run"] = json!(run);
+                let (lines, o) = run_it(&steps);
+                sink.lines(run, &lines, Value::Array(steps.clone()));
+                let same = o == o0;
+                let detail = if same { String::new() } else { first_diff(&o0, &o) };
+                let cmp = vec![
+                    json!({"e": "reset", "run": run + 10_000_000, "fam": "blockcmp", "R": 5, "M": 0, "sei": 0, "seik": "zero", "disc": "spur",
+                           "mode": if cfg!(debug_assertions) { "dev" } else { "release" }, "ok": 1, "recon": 0}).to_string(),
+                    json!({"e": "disccmp", "variant": format!("rdspur{}", nspur), "same": same as u8, "detail": detail}).to_string(),
+                ];
+                sink.lines(run + 10_000_000, &cmp, Value::Array(steps));
+            }
+        }
+    }
     for req in &reqs {
         for budget in [0usize, 1, 3] {
             let (_, o0) = run_it(&mk(req, 0, budget));
@@ -2357,7 +2480,7 @@ pub fn endings(a: &HashMap<String, String>) -> i32 {
     let thorough = tier_of(a);
     let mut sink = Sink::new(a);
     let seed = seed_of(a);
-    let states = ["idle", "ops", "ops-drop", "midq2", "queued", "recunpolled", "recunpolled-drop", "stbuf"];
+    let states = ["idle", "ops", "ops-drop", "midq2", "queued", "recunpolled", "recunpolled-drop", "stbuf", "q0blocked-drop"];
     let mut causes: Vec<Value> = vec![];
     for behind in 0..3usize {
         for after in 0..2usize {
@@ -2389,6 +2512,7 @@ pub fn endings(a: &HashMap<String, String>) -> i32 {
     causes.push(json!({"c": "wrerr", "req": "pub1"}));
     causes.push(json!({"c": "wrerr", "req": "sub"}));
     causes.push(json!({"c": "wrerr", "req": "inbound"}));
+    causes.push(json!({"c": "wrerr", "req": "disc"})); // the write of the user's DISCONNECT itself fails: not a graceful end
     for queued in 0..3usize {
         causes.push(json!({"c": "handles", "queued": queued}));
     }
@@ -2455,6 +2579,19 @@ pub fn endings(a: &HashMap<String, String>) -> i32 {
                     steps.push(poll_ctx());
                     steps.push(json!({"a": "pkt", "pk": {"t": "PUBREC", "id": {"op": 1}, "rc": 0}}));
                     steps.push(json!({"a": "pkt", "pk": {"t": "PUBACK", "id": {"op": 2}, "rc": 0}}));
+                    steps.push(poll_ctx());
+                    next = 3;
+                    live_ops = vec![1, 2];
+                }
+                "q0blocked-drop" => {
+                    // a QoS 0 publish (and a ping) the context has taken from the queue while the transport accepts nothing:
+                    // not a byte of it is written when the context goes away, and its caller has not been polled since
+                    steps.push(json!({"a": "wrmode", "m": "block", "k": 0}));
+                    steps.push(json!({"a": "call", "op": 1, "h": 0, "spec": pub_spec(1, 0, 2)}));
+                    steps.push(json!({"a": "call", "op": 2, "h": 0, "spec": {"kind": "ping"}}));
+                    steps.push(poll_op(1));
+                    steps.push(poll_op(2));
+                    steps.push(poll_ctx());
                     steps.push(poll_ctx());
                     next = 3;
                     live_ops = vec![1, 2];
@@ -2526,6 +2663,7 @@ pub fn endings(a: &HashMap<String, String>) -> i32 {
                         "ping" => steps.push(json!({"a": "call", "op": next, "h": 0, "spec": {"kind": "ping"}})),
                         "pub1" => steps.push(json!({"a": "call", "op": next, "h": 0, "spec": pub_spec(next, 1, 1)})),
                         "sub" => steps.push(json!({"a": "call", "op": next, "h": 0, "spec": {"kind": "sub", "filters": [{"f": format!("f/{}", next), "qos": 0}]}})),
+                        "disc" => steps.push(json!({"a": "call", "op": next, "h": 0, "spec": {"kind": "disc"}})),
                         _ => steps.push(json!({"a": "pkt", "pk": {"t": "PUBLISH", "qos": 1, "id": 44, "topic": "in/w", "payload": "x", "sids": []}})),
                     }
                     next += 1;
@@ -2545,7 +2683,7 @@ pub fn endings(a: &HashMap<String, String>) -> i32 {
                 }
                 _ => {}
             }
-            if st == "recunpolled-drop" || st == "stbuf" || st == "ops-drop" {
+            if st == "recunpolled-drop" || st == "stbuf" || st == "ops-drop" || st == "q0blocked-drop" {
                 // the context ends and is dropped before the caller between its QoS 2 phases is polled again
                 steps.push(poll_ctx());
                 steps.push(poll_ctx());
